@@ -252,7 +252,7 @@ theorem absTime_lag (p b t l : Nat) (ht : t < p) :
 /-- block_step is coherent: the prev name (shift s + p) in block b+1 denotes the same original time step as
     the curr name (shift s) in block b — "the shifted names of block b's outputs are block b+1's inputs". -/
 theorem blockStep_coherent (p b s : Nat) : absTime p (b + 1) (s + p) = absTime p b s := by
-  simp only [absTime, Nat.succ_mul, Nat.add_mul, Nat.one_mul]
+  simp only [absTime, Nat.succ_mul]
   omega
 
 /-- First-order condition: with every lag ≤ period, each name of a block has shift < 2·period, i.e. it is
@@ -522,17 +522,10 @@ theorem sarkka_lag1 (np : Nat) (l : List α) (hne : l ≠ []) (hnp : np > 0) :
     simp only [List.range_one, List.map_cons, List.map_nil, List.all_cons, List.all_nil,
       List.length_map, List.length_range, beq_self_eq_true, Bool.and_true, if_true, List.mapM_cons,
       List.mapM_nil]
-    have : ∀ b ∈ List.range l.length,
-        ((((List.range l.length).map fun b => 0 + 1 * b)[b]?).bind (l[·]?) >>= fun x =>
-          (pure [x] : Option (List α))).bind (fold1 f) = l[b]? := by
-      intro b hb
-      have hb' := List.mem_range.mp hb
-      simp [List.getElem?_map, List.getElem?_range hb', List.getElem?_eq_getElem hb', fold1]
-    simp only [bind_pure_comp, map_pure, Option.pure_def, Option.bind_eq_bind] at this ⊢
     rw [mapM_congr_opt _ (l[·]?) _ (by
       intro b hb
       have hb' := List.mem_range.mp hb
-      simp [List.getElem?_map, List.getElem?_range hb', List.getElem?_eq_getElem hb', fold1])]
+      simp [List.getElem?_range hb', List.getElem?_eq_getElem hb', fold1])]
     have := gather_range l l.length 0 (by omega)
     simp only [Nat.zero_add, List.map_id', List.drop_zero, List.take_length] at this
     exact this
